@@ -123,3 +123,27 @@ Proof.
   exists witness_setter. split; [exact inv_nil|].
   intros H. destruct (H 2) as (Hs & _). vm_compute in Hs. discriminate.
 Qed.
+
+Lemma remove_variant_refuted : exists h : list op, Inv [] /\
+  ~ Inv (run (mkVariant true true false) [] h).
+Proof.
+  exists witness_remove. split; [exact inv_nil|].
+  intros H. destruct (inv_child _ H 1 2) as (_ & _ & Hc).
+  - vm_compute. auto.
+  - vm_compute in Hc. discriminate.
+Qed.
+
+Lemma add_variant_refuted : exists h : list op, Inv [] /\
+  ~ Inv (run (mkVariant false true true) [] h).
+Proof.
+  exists witness_add. split; [exact inv_nil|].
+  intros H. destruct (inv_parent _ H 0 3 eq_refl) as (_ & _ & Hc).
+  vm_compute in Hc. discriminate.
+Qed.
+
+Lemma setter_variant_refuted : exists h : list op, Inv [] /\
+  ~ Inv (run (mkVariant true false true) [] h).
+Proof.
+  exists witness_setter. split; [exact inv_nil|].
+  intros H. destruct (inv_views _ H 2) as (Hs & _). vm_compute in Hs. discriminate.
+Qed.
